@@ -713,15 +713,17 @@ def rule_typestate(chk: Check, view: AsyncView, rid: str):
         chk.add(rid, f"flip-submit:{key}", ok, f"{key}: the state flip and the submission of {clo}" + (" with stopping=True" if flag else "") +
                 " must happen in this order inside one `with self._lock` region", chk.loc(view.fi(key)))
         # the future handed back is the task's future
-        rets = [e for e in r.events if e.kind == "return" and e.func == fq and subs and flow.implies(e.guard, subs[0].guard)]
-        okr = bool(subs) and any(e.term == subs[0].term for e in rets)
+        # (a return under the submission's own condition, or one exit for all paths whose value under that condition is the task's future)
+        rets = [e for e in r.events if e.kind == "return" and e.func == fq and subs and T.mk_and([e.guard, subs[0].guard]) != T.FALSE]
+        okr = bool(subs) and bool(rets) and all(T.assume(e.term, subs[0].guard, True) == subs[0].term for e in rets)
         chk.add(rid, f"future:{key}", okr, f"{key} must return the future of the submitted {clo} task (callers wait on it)", chk.loc(view.fi(key)))
     # _stop when not running: completed future
     r = view.results["node._stop"]
     sets = [e for e in r.events if e.kind == "call" and e.name.endswith(".set_result")]
     rets = [e for e in r.events if e.kind == "return" and e.func == view.fi("node._stop").qualname]
     notrun = T.mk_not(T.eq(STATE, st("RUNNING"), numeric=False))
-    ok = any(flow.equivalent(s.guard, notrun) and any(x.term == s.recv and flow.equivalent(x.guard, notrun) for x in rets) for s in sets)
+    ok = any(flow.equivalent(s.guard, notrun) and any(T.assume(x.term, notrun, True) == s.recv and T.mk_and([x.guard, notrun]) != T.FALSE for x in rets)
+             and all(T.assume(x.term, notrun, True) == s.recv for x in rets if T.mk_and([x.guard, notrun]) != T.FALSE) for s in sets)
     chk.add(rid, "noop-stop:node._stop", ok, "_stop on a node that is not running must return an already completed future", chk.loc(view.fi("node._stop")))
 
 
@@ -928,11 +930,17 @@ def rule_reset_complete(chk: Check, view: AsyncView, rid: str):
             ok = e.term == T.FALSE
             detail = f"_must_reset is reset to {T.show(e.term)}, expected False"
         if ok and attr in ("_q_act", "_q_obs"):
-            ok = e.term[0] == "call" and e.term[1] == "collections.deque" and not e.term[2]
+            # a fresh deque(), or - for the observation queue - one created with its first element, the fresh observation future
+            seeded = attr == "_q_obs" and e.term[0] == "call" and e.term[1] == "collections.deque" and len(e.term[2]) == 1 and e.term[2][0][0] in ("tuple", "list") \
+                and tuple(e.term[2][0][1]) == (r.attr("self", "_f_obs"),)
+            ok = e.term[0] == "call" and e.term[1] == "collections.deque" and (not e.term[2] or seeded)
             detail = f"{attr} must be a fresh deque()"
         chk.add(rid, f"sync.{attr}", ok, detail, chk.loc(fi))
     app = [e for e in r.events if e.kind == "call" and e.name.endswith(".append") and e.recv == r.attr("self", "_q_obs")]
-    ok = len(app) == 1 and app[0].args == (r.attr("self", "_f_obs"),) and r.attr("self", "_f_obs")[0] == "call" and "Future" in str(r.attr("self", "_f_obs")[1])
+    fresh_f = r.attr("self", "_f_obs")[0] == "call" and "Future" in str(r.attr("self", "_f_obs")[1])
+    qo = r.attr("self", "_q_obs")
+    ok = (len(app) == 1 and app[0].args == (r.attr("self", "_f_obs"),) and fresh_f) or \
+        (not app and fresh_f and qo[0] == "call" and len(qo[2]) == 1 and qo[2][0][0] in ("tuple", "list") and tuple(qo[2][0][1]) == (r.attr("self", "_f_obs"),))
     chk.add(rid, "sync.first observation future", ok, "reset() must create a fresh observation Future and queue it (run_until_supervisor pops it)", chk.loc(fi))
 
 
